@@ -359,9 +359,27 @@ pub fn check(pid: &str, seed: u64) -> Value {
                         let tc = |text: &str| Case { text: text.to_string(), loc, k_exp: k, area: 1.0, lm };
                         let e0 = match run(&tc(t)) { Ok(e) => e, Err(_) => continue };
                         nontrivial += 1;
+                        // the id under which the building's cogenerated electricity is declared ("4," or "" for files without ids), if any
+                        let cgn_id: Option<String> = t.lines().find(|l| l.contains("PRODUCCION,EL_COGEN")).map(|l| l[..l.find("PRODUCCION").unwrap_or(0)].to_string());
+                        let mut variants: Vec<(f32, String)> = vec![];
                         for (d, pos) in [(0.5f32, 0usize), (5.0, 0), (10.0, 1), (10.0, 2), (10000.0, 0)] {
                             if pos >= steps_n { continue; }
-                            let more = format!("{}\n9,PRODUCCION,EL_INSITU,{}", t, (0..steps_n).map(|i| if i == pos { format!("{}", d) } else { "0".to_string() }).collect::<Vec<_>>().join(","));
+                            let vals = (0..steps_n).map(|i| if i == pos { format!("{}", d) } else { "0".to_string() }).collect::<Vec<_>>().join(",");
+                            variants.push((d, format!("{}\n9,PRODUCCION,EL_INSITU,{}", t, vals)));
+                            // the same increment declared under the system id of the cogenerator (files without ids put everything under system 0)
+                            if let Some(id) = &cgn_id { if d != 0.5 { variants.push((d, format!("{}\n{}PRODUCCION,EL_INSITU,{}", t, id, vals))); } }
+                        }
+                        // the declared on-site electricity production doubled
+                        if t.contains("PRODUCCION,EL_INSITU") {
+                            let doubled: Vec<String> = t.lines().map(|l| if l.contains("PRODUCCION,EL_INSITU") {
+                                let i = l.find("EL_INSITU,").unwrap() + "EL_INSITU,".len();
+                                let (head, tail) = l.split_at(i);
+                                let (vals, comment) = match tail.find('#') { Some(j) => (&tail[..j], &tail[j..]), None => (tail, "") };
+                                format!("{}{}{}", head, vals.split(',').map(|v| v.trim().parse::<f32>().map(|x| format!("{}", 2.0 * x)).unwrap_or(v.to_string())).collect::<Vec<_>>().join(","), comment)
+                            } else { l.to_string() }).collect();
+                            variants.push((-2.0, doubled.join("\n")));
+                        }
+                        for (d, more) in variants {
                             evals += 1;
                             if let Ok(e1) = run(&tc(&more)) {
                                 let (a0, a1, b0, b1) = (e0.balance.we.a, e1.balance.we.a, e0.balance.we.b, e1.balance.we.b);
@@ -406,6 +424,13 @@ pub fn check(pid: &str, seed: u64) -> Value {
                             if let Ok(e) = run(&tcase(t, 0.5, 2.0 * c, lm)) {
                                 if !eq(e.balance_m2.we.b.nren * c, e0.balance_m2.we.b.nren) || !eq(e.balance.we.b.nren, e0.balance.we.b.nren) || !same_ratio(e.rer, e0.rer) || !same_ratio(e.rer_nrb, e0.rer_nrb) || !same_ratio(e.rer_onst, e0.rer_onst) {
                                     failures.push(json!({"clause": "C11", "components": t, "load_matching": lm, "what": format!("multiplying the area by {} does not divide the per-m2 result by it (or changes something else)", c)}));
+                                } else {
+                                    // every figure by path: the per-m2 balance divided by c, everything else unchanged
+                                    let (l0, l1) = (leaf::results(&e0, false), leaf::results(&e, false));
+                                    let m2 = |l: &leaf::Leaves, want: bool| -> leaf::Leaves { l.iter().filter(|(p, _)| p.starts_with("balance_m2.") == want && !p.starts_with("rer")).map(|(p, v)| (p.clone(), *v)).collect() };
+                                    if let Some(d) = leaf::diff(&m2(&l1, true), &m2(&l0, true), c as f64).or(leaf::diff(&m2(&l0, false), &m2(&l1, false), 1.0)) {
+                                        failures.push(json!({"clause": "C11", "components": t, "load_matching": lm, "what": format!("multiplying the area by {}: a per-m2 figure is not divided by it or another figure changes: {}", c, d)}));
+                                    }
                                 }
                             }
                         }
@@ -459,9 +484,14 @@ pub fn check(pid: &str, seed: u64) -> Value {
         let pv_use = [30.0f32, 30.0, 30.0, 30.0, 30.0, 30.0, 30.0, 30.0, 30.0, 30.0, 30.0, 30.0];
         let pv = [10.0f32, 14.0, 22.0, 30.5, 30.6, 30.7, 30.7, 30.6, 30.5, 20.0, 12.0, 9.0];
         let small_surplus = |m: usize| -> String { format!("1,CONSUMO,ILU,ELECTRICIDAD,{}\n2,PRODUCCION,EL_INSITU,{}\n3,CONSUMO,NEPB,ELECTRICIDAD,{}\n4,CONSUMO,CAL,GASNATURAL,{}", months(&pv_use, m), months(&pv, m), months(&[0.3; 12], m), months(&[50.0; 12], m)) };
+        // a gas cogenerator that runs in the cold months and exports most of its electricity, each month split in 128 (1536 steps: every step
+        // holds less than a thousandth of the annual cogeneration)
+        let chp_el = [240.0f32, 220.0, 180.0, 90.0, 0.0, 0.0, 0.0, 0.0, 60.0, 150.0, 200.0, 240.0];
+        let cogen = |m: usize| -> String { format!("1,CONSUMO,COGEN,GASNATURAL,{}\n1,PRODUCCION,EL_COGEN,{}\n2,CONSUMO,ILU,ELECTRICIDAD,{}\n3,CONSUMO,CAL,GASNATURAL,{}",
+            months(&chp_el.map(|v| v * 2.5), m), months(&chp_el, m), months(&[64.0; 12], m), months(&chp_el.map(|v| v * 1.5), m)) };
         for lm in [false, true] {
             leaf::reset_noise();
-            for (name, base, var) in [("12 months, each split in 730 (8760 hourly steps), PV surplus of less than 1 Wh an hour", small_surplus(1), small_surplus(730)), ("12 months, each split in 730 (8760 hourly steps), small solar thermal use", monthly(1), monthly(730)), ("365 daily steps, each split in 24 (8760 hourly steps)", build(365, 1.0, 0, 1), build(8760, 1.0 / 24.0, 0, 24)), ("30 steps rotated by 7", build(30, 1.0, 0, 1), build(30, 1.0, 7, 1)), ("13 steps, each split in 4", build(13, 1.0, 0, 1), build(52, 0.25, 0, 4)), ("13 steps, each split in 3", build(13, 1.0, 0, 1), build(39, 1.0 / 3.0, 0, 3))] {
+            for (name, base, var) in [("12 months, each split in 128 (1536 steps), gas cogeneration exporting electricity", cogen(1), cogen(128)), ("12 months, each split in 730 (8760 hourly steps), PV surplus of less than 1 Wh an hour", small_surplus(1), small_surplus(730)), ("12 months, each split in 730 (8760 hourly steps), small solar thermal use", monthly(1), monthly(730)), ("365 daily steps, each split in 24 (8760 hourly steps)", build(365, 1.0, 0, 1), build(8760, 1.0 / 24.0, 0, 24)), ("30 steps rotated by 7", build(30, 1.0, 0, 1), build(30, 1.0, 7, 1)), ("13 steps, each split in 4", build(13, 1.0, 0, 1), build(52, 0.25, 0, 4)), ("13 steps, each split in 3", build(13, 1.0, 0, 1), build(39, 1.0 / 3.0, 0, 3))] {
                 evals += 2;
                 leaf::reset_noise();
                 if let (Ok(a), Ok(b)) = (run(&tcase(&base, 0.5, 1.0, lm)), run(&tcase(&var, 0.5, 1.0, lm))) {
